@@ -96,6 +96,12 @@ func (o Op) String() string {
 		return "Rollback"
 	case 'T':
 		return "RollbackTrie(checkpoint node)"
+	case 'Q':
+		return "RollbackTrie(CopyRoot snapshot taken at the checkpoint)"
+	case 'u':
+		return fmt.Sprintf("Update(k%d,%s*,w=%d) while the first storage read fails", o.Key, o.Val, Weight(o.Val))
+	case 'x':
+		return fmt.Sprintf("Update(k%d,nil) [delete] while the first storage read fails", o.Key)
 	case 'Y':
 		return fmt.Sprintf("snapshot = New(CopyRoot(%d))", o.Level)
 	case 'V':
@@ -125,7 +131,8 @@ type World struct {
 	EverShared map[string]bool // values that two live keys held at the same time at some point
 	// checkpoint (C13)
 	Chk        *commitPoint
-	ChkKeys    []string // storage keys present when the checkpoint was taken
+	ChkSnap    wmpt.Node // an in-memory snapshot (CopyRoot) taken together with the checkpoint
+	ChkKeys    []string  // storage keys present when the checkpoint was taken
 	SinceChk   int      // commits since the checkpoint
 	RolledBack bool
 	// context of the last failed recovery check (for attributing it to a known finding)
@@ -136,6 +143,8 @@ type World struct {
 	SnapM *model.WModel
 	// Alt: updates and deletes go through the other exported mutators, Put and Delete
 	Alt bool
+	// Unjudged: the history left what the properties define (see Apply, faulted delete)
+	Unjudged bool
 }
 
 func NewWorld(sh Shared) *World {
@@ -157,6 +166,49 @@ func (w *World) Apply(o Op) (fail string) {
 			fail = fmt.Sprintf("panic: %v", r)
 		}
 	}()
+	if o.K == 'u' || o.K == 'x' {
+		// the same operation with a storage read error injected: an operation that REPORTS an error has not
+		// happened (the model stays as it is) and the trie goes on answering as before; one that does not
+		// run into the fault (nothing to read) is the plain operation
+		w.S.ArmGetFault(0)
+		var err error
+		if o.K == 'u' {
+			v := w.Shared.value(o.Val, o.Key)
+			err = w.T.Update(Keys[o.Key], []byte(v), Weight(v))
+		} else {
+			err = w.T.Update(Keys[o.Key], nil, 0)
+		}
+		hit := w.S.GetFaultHit
+		w.S.ArmGetFault(-1)
+		if hit && err != nil && o.K == 'x' {
+			// A delete that fails on a read AFTER it has detached the key (the branch it leaves must be reduced,
+			// which needs the remaining child loaded) reports the error with the key already gone and the branch
+			// unreduced. No property quantifies over storage errors during deletes; from here on this history is
+			// not judged (observation recorded in DESIGN 8.2).
+			w.Unjudged = true
+			return ""
+		}
+		if !hit || err == nil {
+			// not affected by the fault (or it was absorbed): judge as the plain operation would be
+			_, live := w.M.M[string(Keys[o.Key])]
+			switch {
+			case o.K == 'u' && err != nil:
+				return fmt.Sprintf("update returned %v", err)
+			case o.K == 'u':
+				v := w.Shared.value(o.Val, o.Key)
+				w.M.M[string(Keys[o.Key])] = model.WEntry{Key: Keys[o.Key], Value: []byte(v), Weight: Weight(v)}
+				w.Pending = true
+			case live && err != nil:
+				return fmt.Sprintf("delete of live key returned %v", err)
+			case live:
+				delete(w.M.M, string(Keys[o.Key]))
+				w.Pending = true
+			case !errors.Is(err, wmpt.ErrNotFound):
+				return fmt.Sprintf("delete of absent key returned %v, want ErrNotFound", err)
+			}
+		}
+		return ""
+	}
 	switch o.K {
 	case 'U':
 		v := w.Shared.value(o.Val, o.Key)
@@ -251,14 +303,17 @@ func (w *World) Apply(o Op) (fail string) {
 			return fmt.Sprintf("delete of an absent key through the snapshot returned %v, want ErrNotFound", err)
 		}
 	case 'P':
+		w.ChkSnap = w.T.CopyRoot(64)
 		w.T.SaveRoot()
 		c := *w.lastCommit()
 		w.Chk = &c
 		w.ChkKeys = w.S.Keys()
 		w.SinceChk = 0
-	case 'B', 'T':
+	case 'B', 'T', 'Q':
 		if o.K == 'B' {
 			w.T.Rollback()
+		} else if o.K == 'Q' {
+			w.T.RollbackTrie(w.ChkSnap)
 		} else {
 			var n wmpt.Node
 			if w.Chk.weight > 0 {
